@@ -24,7 +24,7 @@ func init() {
 		Rule: "aliasing (normal build): generated streams demultiplexed with NextPacket/NextData; every result is deep-copied at delivery and re-compared after each later call (last 16) and at the end, while a second " +
 			"Demuxer on another stream advances in lock-step, the GC recycles the sync.Pool, and the input buffer is finally overwritten; Muxer inputs (payload, descriptor bytes) snapshotted and re-compared " +
 			"after every call. Concurrency (-race build): N in {2,4,8,16,32,64} goroutines each owning a Demuxer or Muxer on its own stream, results compared with solo runs, race detector log scanned; " +
-			"distinct = hash(stream(s), mode); non-trivial = ≥2 results snapshotted or ≥2 goroutines ran",
+			"plus 110 000..400 000 packet streams with payloads of every size, each packet kept for 8192 (thorough 70 000) further calls and compared with the stream bytes (stage alias-endurance); distinct = hash(stream(s), mode); non-trivial = ≥2 results snapshotted or ≥2 goroutines ran",
 		Assumptions: []string{"the schedules are those the Go scheduler produced under Gosched/GC pressure; the number of observed goroutine switch points is reported and guarded",
 			"the Muxer is allowed to touch documented struct fields of MuxerData (StuffingLength, StreamID); only payload and descriptor bytes are protected"},
 		Shards:     16,
@@ -49,6 +49,7 @@ func init() {
 			need(m, &out, "streams_with_repeated_tables", 30)
 			need(m, &out, "data_built_by_a_retaining_parser", 300)
 			need(m, &out, "size_boundary_alias_runs", 10)
+			need(m, &out, "endurance_packets_held_and_rechecked", 300000)
 			return out
 		},
 	})
@@ -175,6 +176,19 @@ func runC16(c *mon.Ctx) {
 		c.Count("long_stream_alias_runs")
 		c.Max("long_stream_packets", int64(len(s1.Packets)))
 		c.Case(mon.HashBytes("alias-long", s1.Bytes[:1880]), true)
+	}
+	// endurance: hundreds of thousands of packets with payloads of every size, each kept by the caller while thousands of further
+	// packets are read (buffers that are carved from blocks, recycled after a megabyte, indexed by narrow counters)
+	for i := int64(0); i < c.Pick(3, 16); i++ {
+		if c.Mine("alias-endurance", i) {
+			r := c.Rng("alias-endurance", i)
+			heldPacketsCase(c, "C16", "alias-endurance", i, r, int(c.Pick(110000, 400000))+r.IntN(5000), int(c.Pick(8192, 70000)), false)
+		}
+	}
+	for i := int64(0); i < c.Pick(2, 10); i++ {
+		if c.Mine("alias-sparse", i) {
+			sparseCase(c, "C16", "alias-sparse", 5+i)
+		}
 	}
 	// units whose reassembled size sits on an allocation / pool size-class boundary (2^k and its neighbours, up to 128 KiB)
 	nsz := c.Pick(24, 400)
